@@ -766,9 +766,25 @@ func (s *DB) keepReachableBlocks(
 	candidateBlocks map[string]int,
 ) error {
 	retained := []*crdt.Tree{&s.crdt}
+	// A version whose nodes are already gone (the leftover of an earlier
+	// deletion that was cut short) has nothing left to protect; it must not
+	// keep every later deletion from running. Any other error still does.
+	gone := func(err error) bool {
+		var ae awserr.Error
+		if errors.As(err, &ae) && ae.Code() == s3.ErrCodeNoSuchKey {
+			if s.cfg.LogFunc != nil {
+				s.cfg.LogFunc(fmt.Sprintf("skipping a retained version that lacks nodes: %v\n", err))
+			}
+			return true
+		}
+		return false
+	}
 	load := func(name string, root *crdt.Root) error {
 		tree, err := crdt.Load(ctx, s.crdt.Config, &name, *root)
 		if err != nil {
+			if gone(err) {
+				return nil
+			}
 			return fmt.Errorf("load retained version %s: %w", name, err)
 		}
 		retained = append(retained, tree)
@@ -817,7 +833,7 @@ func (s *DB) keepReachableBlocks(
 				}
 				return true, nil
 			})
-		if err != nil {
+		if err != nil && !(tree != &s.crdt && gone(err)) {
 			return fmt.Errorf("walk retained version: %w", err)
 		}
 	}
